@@ -1,0 +1,1144 @@
+//! C12: stored and replicated values read back unchanged.
+//!
+//! * `vs_roundtrip` pushes one valueset through exactly the path the backend / replication use:
+//!   `ValueSetT::to_db_valueset_v2` -> serde_json bytes -> `DbValueSetV2` -> `from_db_valueset_v2`.
+//! * `entry_*_roundtrip` do the same for whole entries through `Entry::to_dbentry` /
+//!   `Entry::from_dbentry`, `ReplEntryV1::new` / `rehydrate` and `ReplIncrementalEntryV1::new` /
+//!   `rehydrate` (the storage types live in crate-private modules).
+//! * `gen_valueset` builds a valueset of every in-memory valueset type from a caller supplied
+//!   deterministic number stream (several element types are crate-private or need crates the
+//!   external harness does not link).
+//!
+//! Everything here only *calls* server code; nothing is changed.
+
+use crate::be::dbentry::DbEntry;
+use crate::be::dbvalue::DbValueSetV2;
+use crate::credential::apppwd::ApplicationPassword;
+use crate::credential::totp::{Totp, TotpAlgo, TotpDigits};
+use crate::credential::{BackupCodes, Credential};
+use crate::entry::Eattrs;
+use crate::prelude::*;
+use crate::repl::entry::{EntryChangeState, State};
+use crate::repl::proto::{ReplCidRange, ReplEntryV1, ReplIncrementalEntryV1};
+use crate::schema::SchemaTransaction;
+use crate::server::keys::KeyId;
+use crate::value::{
+    Address, ApiToken, AuthType, CredUpdateSessionPerms, CredentialType, IntentTokenState,
+    KeyStatus, KeyUsage, Oauth2Session, OauthClaimMapJoin, Session, SessionExtMetadata,
+    SessionState,
+};
+use crate::valueset::image::ValueSetImage;
+use crate::valueset::*;
+use compact_jwt::crypto::JwsRs256Signer;
+use compact_jwt::JwsEs256Signer;
+use crypto_glue::traits::{DecodePem, Zeroizing};
+use crypto_glue::x509::Certificate;
+use kanidm_lib_crypto::Password;
+use kanidm_proto::internal::{ImageType, ImageValue, UiHint};
+use kanidm_proto::v1::OutboundMessage;
+use sshkey_attest::proto::PublicKey as SshPublicKey;
+use std::collections::{BTreeMap, BTreeSet};
+use std::fmt::Write as _;
+use std::sync::OnceLock;
+use time::OffsetDateTime;
+use webauthn_rs::prelude::{
+    AttestationCaList, AttestedPasskey as AttestedPasskeyV4, Passkey as PasskeyV4,
+};
+use webauthn_rs_core::proto::{
+    COSEAlgorithm, COSEEC2Key, COSEKey, COSEKeyType, Credential as WebauthnCredential,
+    CredentialV3, ECDSACurve, UserVerificationPolicy,
+};
+
+// ------------------------------------------------------------------ kinds
+
+/// Names of all in-memory valueset implementations (the struct name without `ValueSet`).
+pub const KINDS: &[&str] = &[
+    "Address",
+    "EmailAddress",
+    "ApplicationPassword",
+    "AuditLogString",
+    "PrivateBinary",
+    "PublicBinary",
+    "Bool",
+    "Certificate",
+    "Cid",
+    "Credential",
+    "IntentToken",
+    "Passkey",
+    "AttestedPasskey",
+    "CredentialType",
+    "WebauthnAttestationCaList",
+    "DateTime",
+    "HexString",
+    "Iname",
+    "Index",
+    "Int64",
+    "Iutf8",
+    "JsonFilter",
+    "Json",
+    "JwsKeyEs256",
+    "JwsKeyRs256",
+    "KeyInternal",
+    "Message",
+    "NsUniqueId",
+    "OauthScope",
+    "OauthScopeMap",
+    "OauthClaimMap",
+    "Restricted",
+    "Sha256",
+    "Secret",
+    "Session",
+    "Oauth2Session",
+    "ApiTokenSet",
+    "Spn",
+    "SshKey",
+    "Syntax",
+    "TotpSecret",
+    "UiHint",
+    "Uint32",
+    "Uint64",
+    "Url",
+    "Utf8",
+    "Uuid",
+    "Refer",
+    "Image",
+];
+
+struct Prefix(String);
+impl std::fmt::Write for Prefix {
+    fn write_str(&mut self, s: &str) -> std::fmt::Result {
+        for c in s.chars() {
+            if c.is_alphanumeric() {
+                self.0.push(c)
+            } else {
+                return Err(std::fmt::Error);
+            }
+        }
+        Ok(())
+    }
+}
+
+/// The concrete type of a valueset: its (derived) Debug struct name without the `ValueSet` prefix.
+pub fn kind_of(vs: &ValueSet) -> String {
+    let mut p = Prefix(String::new());
+    let _ = write!(p, "{:?}", vs);
+    p.0.strip_prefix("ValueSet").unwrap_or(&p.0).to_string()
+}
+
+// ------------------------------------------------------------------ value round trip
+
+pub struct VsTrip {
+    /// serde tag of the `DbValueSetV2` variant that `to_db_valueset_v2` produced
+    pub tag: String,
+    /// size of the stored JSON
+    pub stored_len: usize,
+    /// result of `from_db_valueset_v2` on the re-parsed stored form
+    pub back: Result<ValueSet, String>,
+    /// the reloaded valueset stores to the same JSON (up to the order of record collections)
+    pub restore_same: bool,
+}
+
+#[derive(Clone, Copy, PartialEq)]
+enum Pos {
+    /// the payload of the DbValueSetV2 variant: a set of elements
+    Top,
+    /// the value of an object field
+    Field,
+    /// an element of an array (possibly a tuple component)
+    Elem,
+}
+
+/// Put unordered collections into a canonical order. Sorted: the variant payload (a set of
+/// elements), arrays of objects, arrays of arrays (collections of tuples; but not a pair of two
+/// byte strings, which is a (salt, hash) tuple), arrays of strings held in an object field
+/// (string sets). Never sorted: arrays of numbers (byte strings) and mixed arrays (tuples).
+fn canon(v: &mut serde_json::Value, pos: Pos) {
+    match v {
+        serde_json::Value::Array(items) => {
+            for i in items.iter_mut() {
+                canon(i, Pos::Elem);
+            }
+            let all = |f: &dyn Fn(&serde_json::Value) -> bool| !items.is_empty() && items.iter().all(f);
+            let num_arr = |i: &serde_json::Value| {
+                i.as_array()
+                    .map(|a| a.iter().all(|x| x.is_number()))
+                    .unwrap_or(false)
+            };
+            let sort = pos == Pos::Top
+                || all(&|i| i.is_object())
+                || (all(&|i| i.is_array()) && !(items.len() == 2 && items.iter().all(num_arr)))
+                || (all(&|i| i.is_string()) && pos == Pos::Field)
+                || all(&|i| i.is_boolean());
+            if sort {
+                items.sort_by_key(|i| i.to_string());
+            }
+        }
+        serde_json::Value::Object(m) => {
+            for (_, i) in m.iter_mut() {
+                canon(i, Pos::Field);
+            }
+        }
+        _ => {}
+    }
+}
+
+/// canonical form of a serialised DbValueSetV2 (`{"TAG": payload}`)
+fn canon_dbvs(v: &mut serde_json::Value) {
+    if let serde_json::Value::Object(m) = v {
+        for (tag, payload) in m.iter_mut() {
+            // EM / PN are (primary, set) tuples, EK is one byte string: not sets of elements
+            let top = !matches!(tag.as_str(), "EM" | "PN" | "EK");
+            canon(payload, if top { Pos::Top } else { Pos::Elem });
+        }
+    }
+}
+
+/// The stored JSON of a valueset with collections of records put in a canonical order (several
+/// valuesets keep hash sets / hash maps whose iteration order is not stable). Two valuesets with
+/// the same canonical stored form are indistinguishable after a restart.
+pub fn vs_stored_canon(vs: &ValueSet) -> String {
+    let mut v = serde_json::to_value(vs.to_db_valueset_v2()).expect("json");
+    canon_dbvs(&mut v);
+    v.to_string()
+}
+
+pub fn vs_roundtrip(vs: &ValueSet) -> VsTrip {
+    let db = vs.to_db_valueset_v2();
+    let bytes = serde_json::to_vec(&db).expect("serialise DbValueSetV2");
+    let mut val: serde_json::Value = serde_json::from_slice(&bytes).expect("json");
+    let tag = val
+        .as_object()
+        .and_then(|o| o.keys().next().cloned())
+        .unwrap_or_default();
+    let back = serde_json::from_slice::<DbValueSetV2>(&bytes)
+        .map_err(|e| format!("serde: {e}"))
+        .and_then(|db2| from_db_valueset_v2(db2).map_err(|e| format!("{e:?}")));
+    canon_dbvs(&mut val);
+    let restore_same = match &back {
+        Ok(b) => {
+            let mut v2 = serde_json::to_value(b.to_db_valueset_v2()).expect("json");
+            canon_dbvs(&mut v2);
+            v2 == val
+        }
+        Err(_) => false,
+    };
+    VsTrip {
+        tag,
+        stored_len: bytes.len(),
+        back,
+        restore_same,
+    }
+}
+
+// ------------------------------------------------------------------ entries
+
+#[derive(Debug, Clone, PartialEq, Eq)]
+pub enum HookState {
+    Live {
+        at: Cid,
+        changes: Vec<(Attribute, Cid)>,
+    },
+    Tombstone {
+        at: Cid,
+    },
+}
+
+pub struct HookEntry {
+    pub state: HookState,
+    pub attrs: Vec<(Attribute, ValueSet)>,
+}
+
+fn state_of(ecs: &EntryChangeState) -> HookState {
+    match ecs.current() {
+        State::Live { at, changes } => HookState::Live {
+            at: at.clone(),
+            changes: changes
+                .iter()
+                .map(|(a, c)| (a.clone(), c.clone()))
+                .collect(),
+        },
+        State::Tombstone { at } => HookState::Tombstone { at: at.clone() },
+    }
+}
+
+fn attrs_of(attrs: &Eattrs) -> Vec<(Attribute, ValueSet)> {
+    attrs.iter().map(|(a, v)| (a.clone(), v.clone())).collect()
+}
+
+pub fn entry_build(
+    uuid: Uuid,
+    state: &HookState,
+    attrs: &[(Attribute, ValueSet)],
+    id: u64,
+) -> EntrySealedCommitted {
+    let st = match state {
+        HookState::Live { at, changes } => State::Live {
+            at: at.clone(),
+            changes: changes.iter().cloned().collect(),
+        },
+        HookState::Tombstone { at } => State::Tombstone { at: at.clone() },
+    };
+    let mut eattrs = Eattrs::default();
+    for (a, v) in attrs {
+        eattrs.insert(a.clone(), v.clone());
+    }
+    Entry::verif_c12_build(uuid, EntryChangeState::build(st), eattrs, id)
+}
+
+pub fn entry_parts(e: &EntrySealedCommitted) -> HookEntry {
+    HookEntry {
+        state: state_of(e.get_changestate()),
+        attrs: attrs_of(e.get_ava()),
+    }
+}
+
+/// `to_dbentry` -> JSON (as `idl_sqlite::write_identries` / backup do) -> `from_dbentry`.
+/// Returns the reloaded entry's uuid, id and parts.
+pub fn entry_db_roundtrip(e: &EntrySealedCommitted, id: u64) -> Option<(Uuid, u64, HookEntry)> {
+    let dbe = e.to_dbentry();
+    let bytes = serde_json::to_vec(&dbe).expect("serialise DbEntry");
+    let dbe2: DbEntry = serde_json::from_slice(&bytes).ok()?;
+    let e2 = Entry::from_dbentry(dbe2, id)?;
+    Some((e2.get_uuid(), e2.get_id(), entry_parts(&e2)))
+}
+
+/// `ReplEntryV1::new` -> JSON -> `ReplEntryV1::rehydrate` (refresh path).
+pub fn entry_repl_refresh_roundtrip(
+    e: &EntrySealedCommitted,
+    txn: &QueryServerReadTransaction<'_>,
+) -> Result<HookEntry, String> {
+    let r = ReplEntryV1::new(e, txn.get_schema());
+    let bytes = serde_json::to_vec(&r).expect("serialise ReplEntryV1");
+    let r2: ReplEntryV1 = serde_json::from_slice(&bytes).map_err(|e| format!("serde: {e}"))?;
+    let (ecs, attrs) = r2.rehydrate().map_err(|e| format!("{e:?}"))?;
+    Ok(HookEntry {
+        state: state_of(&ecs),
+        attrs: attrs_of(&attrs),
+    })
+}
+
+/// `ReplIncrementalEntryV1::new` -> JSON -> `rehydrate` (incremental path).
+/// `ranges`: server uuid -> (ts_min, ts_max) of the requested window.
+pub fn entry_repl_incremental_roundtrip(
+    e: &EntrySealedCommitted,
+    txn: &QueryServerReadTransaction<'_>,
+    ranges: &BTreeMap<Uuid, (Duration, Duration)>,
+) -> Result<(Uuid, HookEntry), String> {
+    let ctx: BTreeMap<Uuid, ReplCidRange> = ranges
+        .iter()
+        .map(|(u, (a, b))| {
+            (
+                *u,
+                ReplCidRange {
+                    ts_min: *a,
+                    ts_max: *b,
+                },
+            )
+        })
+        .collect();
+    let r = ReplIncrementalEntryV1::new(e, txn.get_schema(), &ctx);
+    let bytes = serde_json::to_vec(&r).expect("serialise ReplIncrementalEntryV1");
+    let r2: ReplIncrementalEntryV1 =
+        serde_json::from_slice(&bytes).map_err(|e| format!("serde: {e}"))?;
+    let (uuid, ecs, attrs) = r2.rehydrate().map_err(|e| format!("{e:?}"))?;
+    Ok((
+        uuid,
+        HookEntry {
+            state: state_of(&ecs),
+            attrs: attrs_of(&attrs),
+        },
+    ))
+}
+
+pub fn schema_is_replicated(txn: &QueryServerReadTransaction<'_>, attr: &Attribute) -> bool {
+    txn.get_schema().is_replicated(attr)
+}
+
+// ------------------------------------------------------------------ generators
+
+const PEM_DATA: &str = r#"-----BEGIN CERTIFICATE-----
+MIIB3zCCAYWgAwIBAgIUdJ6IWvI+8M6nwK7ykUK7/iBq7yQwCgYIKoZIzj0EAwIw
+RTELMAkGA1UEBhMCQVUxEzARBgNVBAgMClNvbWUtU3RhdGUxITAfBgNVBAoMGElu
+dGVybmV0IFdpZGdpdHMgUHR5IEx0ZDAeFw0yNDA4MjEwNjQ2MzBaFw0yNTA4MjEw
+NjQ2MzBaMEUxCzAJBgNVBAYTAkFVMRMwEQYDVQQIDApTb21lLVN0YXRlMSEwHwYD
+VQQKDBhJbnRlcm5ldCBXaWRnaXRzIFB0eSBMdGQwWTATBgcqhkjOPQIBBggqhkjO
+PQMBBwNCAAS2Szn4NPmgxawC1+MRC41jqobemNkXkRZ9AgozK0zRDFc6k1IHUZ++
+wN0USpXDQYDnJfATqvlpKPebnHxTytt6o1MwUTAdBgNVHQ4EFgQU1oR1x2CnoPap
+JMKPCVVzqWf2ANYwHwYDVR0jBBgwFoAU1oR1x2CnoPapJMKPCVVzqWf2ANYwDwYD
+VR0TAQH/BAUwAwEB/zAKBggqhkjOPQQDAgNIADBFAiBpy0o2CY97MIxeQ0HgG44Y
+raBy6edj7W0EIH+yQxkDEwIhAI0nVKaI6duHLAvtKW6CfEQFG6jKg7dyk37YYiRD
+2jS0
+-----END CERTIFICATE-----"#;
+
+const SSH_ECDSA: &str = concat!(
+    "ecdsa-sha2-nistp521 AAAAE2VjZHNhLXNoYTItbmlzdHA1MjEAAAAIbmlzdHA1MjEAAACFBAGyIY7o3B",
+    "tOzRiJ9vvjj96bRImwmyy5GvFSIUPlK00HitiAWGhiO1jGZKmK7220Oe4rqU3uAwA00a0758UODs+0OQHLMDRtl81l",
+    "zPrVSdrYEDldxH9+a86dBZhdm0e15+ODDts2LHUknsJCRRldO4o9R9VrohlF7cbyBlnhJQrR4S+Oag== william@a",
+    "methyst"
+);
+
+type Next<'a> = &'a mut dyn FnMut() -> u64;
+
+fn below(next: Next<'_>, n: u64) -> u64 {
+    next() % n
+}
+fn rbytes(next: Next<'_>, n: usize) -> Vec<u8> {
+    (0..n).map(|_| next() as u8).collect()
+}
+fn rstr(next: Next<'_>) -> String {
+    const ALPHA: &[&str] = &[
+        "a", "b", "c", "d", "e", "x", "y", "z", "A", "B", "Z", "0", "1", "9", " ", "_", "-", ".",
+        "@", "/", "\"", "\\", "é", "ß", "λ", "日", "🦀", "\t", "{", "}", ":", ",",
+    ];
+    let n = below(next, 12) as usize;
+    let mut s = String::new();
+    for _ in 0..n {
+        s.push_str(ALPHA[below(next, ALPHA.len() as u64) as usize]);
+    }
+    s
+}
+fn rname(next: Next<'_>) -> String {
+    const ALPHA: &[u8] = b"abcdefghijklmnopqrstuvwxyz0123456789_";
+    let n = 1 + below(next, 10) as usize;
+    (0..n)
+        .map(|_| ALPHA[below(next, ALPHA.len() as u64) as usize] as char)
+        .collect()
+}
+fn ruuid(next: Next<'_>) -> Uuid {
+    if below(next, 3) == 0 {
+        Uuid::from_u128(below(next, 16) as u128)
+    } else {
+        Uuid::from_u128(((next() as u128) << 64) | next() as u128)
+    }
+}
+fn rdur(next: Next<'_>) -> Duration {
+    match below(next, 4) {
+        0 => Duration::from_secs(below(next, 100)),
+        1 => Duration::new(below(next, 4_000_000_000), below(next, 1_000_000_000) as u32),
+        2 => Duration::from_nanos(next() >> 8),
+        _ => Duration::new(below(next, 1 << 40), below(next, 1_000_000_000) as u32),
+    }
+}
+fn rcid(next: Next<'_>) -> Cid {
+    Cid {
+        ts: rdur(next),
+        s_uuid: ruuid(next),
+    }
+}
+fn rodt(next: Next<'_>) -> OffsetDateTime {
+    // 1970 ..= ~2286, with and without sub-second parts
+    let secs = below(next, 10_000_000_000);
+    let nanos = match below(next, 3) {
+        0 => 0,
+        1 => below(next, 1000) * 1_000_000,
+        _ => below(next, 1_000_000_000),
+    };
+    OffsetDateTime::UNIX_EPOCH + Duration::new(secs, nanos as u32)
+}
+fn rstate(next: Next<'_>) -> SessionState {
+    match below(next, 3) {
+        0 => SessionState::NeverExpires,
+        1 => SessionState::ExpiresAt(rodt(next)),
+        _ => SessionState::RevokedAt(rcid(next)),
+    }
+}
+fn rident(next: Next<'_>) -> IdentityId {
+    match below(next, 3) {
+        0 => IdentityId::Internal(ruuid(next)),
+        1 => IdentityId::User(ruuid(next)),
+        _ => IdentityId::Synch(ruuid(next)),
+    }
+}
+fn rperms(next: Next<'_>) -> CredUpdateSessionPerms {
+    let b = next();
+    CredUpdateSessionPerms {
+        ext_cred_portal_can_view: b & 1 != 0,
+        primary_can_edit: b & 2 != 0,
+        passkeys_can_edit: b & 4 != 0,
+        attested_passkeys_can_edit: b & 8 != 0,
+        unixcred_can_edit: b & 16 != 0,
+        sshpubkey_can_edit: b & 32 != 0,
+    }
+}
+fn rtotp(next: Next<'_>) -> Totp {
+    let algo = match below(next, 3) {
+        0 => TotpAlgo::Sha1,
+        1 => TotpAlgo::Sha256,
+        _ => TotpAlgo::Sha512,
+    };
+    let digits = if below(next, 2) == 0 {
+        TotpDigits::Six
+    } else {
+        TotpDigits::Eight
+    };
+    let n = 1 + below(next, 40) as usize;
+    Totp::new(rbytes(next, n), 1 + below(next, 120), algo, digits)
+}
+fn rwebauthn(next: Next<'_>) -> WebauthnCredential {
+    let n = 8 + below(next, 24) as usize;
+    WebauthnCredential::from(CredentialV3 {
+        cred_id: rbytes(next, n),
+        cred: COSEKey {
+            type_: COSEAlgorithm::ES256,
+            key: COSEKeyType::EC_EC2(COSEEC2Key {
+                curve: ECDSACurve::SECP256R1,
+                x: rbytes(next, 32),
+                y: rbytes(next, 32),
+            }),
+        },
+        counter: below(next, 1000) as u32,
+        verified: below(next, 2) == 0,
+        registration_policy: if below(next, 2) == 0 {
+            UserVerificationPolicy::Required
+        } else {
+            UserVerificationPolicy::Preferred
+        },
+    })
+}
+fn rcred(next: Next<'_>, pws: &[Password]) -> Option<Credential> {
+    let pw = pws.get(below(next, pws.len().max(1) as u64) as usize)?.clone();
+    let ts = rodt(next);
+    let c = match below(next, 4) {
+        0 => Credential::new_from_password(pw, ts),
+        1 => Credential::new_from_generatedpassword(pw, ts),
+        2 => {
+            let mut c = Credential::new_from_password(pw, ts);
+            for _ in 0..(1 + below(next, 2)) {
+                c = c.append_totp(rname(next), rtotp(next), rodt(next));
+            }
+            c
+        }
+        _ => {
+            let c = Credential::new_from_password(pw, ts).append_totp(
+                rname(next),
+                rtotp(next),
+                rodt(next),
+            );
+            let codes: hashbrown::HashSet<String> = (0..(1 + below(next, 4)))
+                .map(|_| rname(next))
+                .collect();
+            c.update_backup_code(BackupCodes::new(codes), rodt(next))
+                .ok()?
+        }
+    };
+    Some(c)
+}
+fn rs256_der() -> &'static Vec<Vec<u8>> {
+    static KEYS: OnceLock<Vec<Vec<u8>>> = OnceLock::new();
+    KEYS.get_or_init(|| {
+        (0..2)
+            .map(|_| {
+                JwsRs256Signer::generate_rs256()
+                    .and_then(|k| k.private_key_to_der())
+                    .expect("rs256 key")
+                    .to_vec()
+            })
+            .collect()
+    })
+}
+
+/// Build a valueset of the given kind with 1..=3 elements drawn from `next`.
+/// `pws` supplies the passwords embedded in credentials / application passwords.
+pub fn gen_valueset(kind: &str, next: Next<'_>, pws: &[Password]) -> Option<ValueSet> {
+    let n = 1 + below(next, 3) as usize;
+    let vs: ValueSet = match kind {
+        "Utf8" => {
+            let mut v = ValueSetUtf8::new(rstr(next));
+            for _ in 1..n {
+                v.push(rstr(next));
+            }
+            v
+        }
+        "Iutf8" => {
+            let mut v = ValueSetIutf8::new(&rstr(next));
+            for _ in 1..n {
+                v.push(&rstr(next));
+            }
+            v
+        }
+        "Iname" => {
+            let mut v = ValueSetIname::new(&rname(next));
+            for _ in 1..n {
+                v.push(&rname(next));
+            }
+            v
+        }
+        "Uuid" => {
+            let mut v = ValueSetUuid::new(ruuid(next));
+            for _ in 1..n {
+                v.push(ruuid(next));
+            }
+            v
+        }
+        "Refer" => {
+            let mut v = ValueSetRefer::new(ruuid(next));
+            for _ in 1..n {
+                v.push(ruuid(next));
+            }
+            v
+        }
+        "Bool" => {
+            let mut v = ValueSetBool::new(below(next, 2) == 0);
+            for _ in 1..n {
+                v.push(below(next, 2) == 0);
+            }
+            v
+        }
+        "Uint32" => {
+            let mut v = ValueSetUint32::new(next() as u32);
+            for _ in 1..n {
+                v.push((next() >> below(next, 32)) as u32);
+            }
+            v
+        }
+        "Int64" => {
+            let mut v = ValueSetInt64::new(next() as i64);
+            for _ in 1..n {
+                v.push((next() as i64) >> below(next, 64));
+            }
+            v
+        }
+        "Uint64" => {
+            let mut v = ValueSetUint64::new(next());
+            for _ in 1..n {
+                v.push(next() >> below(next, 64));
+            }
+            v
+        }
+        "Syntax" => {
+            let pick = |next: Next<'_>| {
+                SyntaxType::try_from(below(next, 47) as u16).unwrap_or(SyntaxType::Utf8String)
+            };
+            let mut v = ValueSetSyntax::new(pick(next));
+            for _ in 1..n {
+                v.push(pick(next));
+            }
+            v
+        }
+        "Index" => {
+            let pick = |next: Next<'_>| match below(next, 4) {
+                0 => IndexType::Equality,
+                1 => IndexType::Presence,
+                2 => IndexType::SubString,
+                _ => IndexType::Ordering,
+            };
+            let mut v = ValueSetIndex::new(pick(next));
+            for _ in 1..n {
+                v.push(pick(next));
+            }
+            v
+        }
+        "Secret" => {
+            let mut v = ValueSetSecret::new(rstr(next));
+            for _ in 1..n {
+                v.push(rstr(next));
+            }
+            v
+        }
+        "Restricted" => {
+            let mut v = ValueSetRestricted::new(rstr(next));
+            for _ in 1..n {
+                v.push(rstr(next));
+            }
+            v
+        }
+        "Spn" => {
+            let mut v = ValueSetSpn::new((rname(next), rname(next)));
+            for _ in 1..n {
+                v.push((rname(next), rname(next)));
+            }
+            v
+        }
+        "Cid" => {
+            let mut v = ValueSetCid::new(rcid(next));
+            for _ in 1..n {
+                v.push(rcid(next));
+            }
+            v
+        }
+        "JsonFilter" => {
+            fn rf(next: Next<'_>, depth: u32) -> ProtoFilter {
+                match below(next, if depth == 0 { 3 } else { 6 }) {
+                    0 => ProtoFilter::Eq(rname(next), rstr(next)),
+                    1 => ProtoFilter::Pres(rname(next)),
+                    2 => ProtoFilter::Cnt(rname(next), rstr(next)),
+                    3 => ProtoFilter::And(
+                        (0..below(next, 3)).map(|_| rf(next, depth - 1)).collect(),
+                    ),
+                    4 => {
+                        ProtoFilter::Or((0..below(next, 3)).map(|_| rf(next, depth - 1)).collect())
+                    }
+                    _ => ProtoFilter::AndNot(Box::new(rf(next, depth - 1))),
+                }
+            }
+            let mut v = ValueSetJsonFilter::new(rf(next, 2));
+            for _ in 1..n {
+                v.push(rf(next, 2));
+            }
+            v
+        }
+        "NsUniqueId" => {
+            let mk = |next: Next<'_>| {
+                format!(
+                    "{:08x}-{:08x}-{:08x}-{:08x}",
+                    next() as u32,
+                    next() as u32,
+                    next() as u32,
+                    next() as u32
+                )
+            };
+            let mut v = ValueSetNsUniqueId::new(mk(next));
+            for _ in 1..n {
+                v.push(mk(next));
+            }
+            v
+        }
+        "Url" => {
+            let mk = |next: Next<'_>| {
+                Url::parse(&format!(
+                    "https://{}.example.com:{}/{}?q={}",
+                    rname(next),
+                    1 + below(next, 65000),
+                    rname(next),
+                    rname(next)
+                ))
+                .ok()
+            };
+            let mut v = ValueSetUrl::new(mk(next)?);
+            for _ in 1..n {
+                v.push(mk(next)?);
+            }
+            v
+        }
+        "DateTime" => {
+            let mut v = ValueSetDateTime::new(rodt(next));
+            for _ in 1..n {
+                v.push(rodt(next));
+            }
+            v
+        }
+        "PrivateBinary" => {
+            let k = below(next, 40) as usize;
+            let mut v = ValueSetPrivateBinary::new(rbytes(next, k));
+            for _ in 1..n {
+                let k = below(next, 40) as usize;
+                v.push(rbytes(next, k));
+            }
+            v
+        }
+        "PublicBinary" => {
+            let k = below(next, 40) as usize;
+            let mut v = ValueSetPublicBinary::new(rstr(next), rbytes(next, k));
+            for _ in 1..n {
+                let k = below(next, 40) as usize;
+                v.push(rstr(next), rbytes(next, k));
+            }
+            v
+        }
+        "OauthScope" => {
+            let mut v = ValueSetOauthScope::new(rname(next));
+            for _ in 1..n {
+                v.push(rname(next));
+            }
+            v
+        }
+        "Address" => {
+            let mk = |next: Next<'_>| Address {
+                formatted: rstr(next),
+                street_address: rstr(next),
+                locality: rstr(next),
+                region: rstr(next),
+                postal_code: rstr(next),
+                country: rstr(next),
+            };
+            let mut v = ValueSetAddress::new(mk(next));
+            for _ in 1..n {
+                v.push(mk(next));
+            }
+            v
+        }
+        "EmailAddress" => {
+            let mk = |next: Next<'_>| format!("{}@{}.example", rname(next), rname(next));
+            let mut v = ValueSetEmailAddress::new(mk(next));
+            for _ in 1..n {
+                v.push(mk(next), below(next, 3) == 0);
+            }
+            v
+        }
+        "Credential" => {
+            let mut v = ValueSetCredential::new(rname(next), rcred(next, pws)?);
+            for _ in 1..n {
+                v.push(rname(next), rcred(next, pws)?);
+            }
+            v
+        }
+        "SshKey" => {
+            use base64::{engine::general_purpose::STANDARD, Engine as _};
+            let mk = |next: Next<'_>| {
+                if below(next, 3) == 0 {
+                    SshPublicKey::from_string(SSH_ECDSA).ok()
+                } else {
+                    let mut blob = vec![0, 0, 0, 11];
+                    blob.extend_from_slice(b"ssh-ed25519");
+                    blob.extend_from_slice(&[0, 0, 0, 32]);
+                    blob.extend_from_slice(&rbytes(next, 32));
+                    let s = format!("ssh-ed25519 {} {}", STANDARD.encode(&blob), rname(next));
+                    SshPublicKey::from_string(&s).ok()
+                }
+            };
+            let mut v = ValueSetSshKey::new(rname(next), mk(next)?);
+            for _ in 1..n {
+                v.push(rname(next), mk(next)?);
+            }
+            v
+        }
+        "OauthScopeMap" => {
+            let mk = |next: Next<'_>| -> BTreeSet<String> {
+                (0..(1 + below(next, 3))).map(|_| rname(next)).collect()
+            };
+            let mut v = ValueSetOauthScopeMap::new(ruuid(next), mk(next));
+            for _ in 1..n {
+                v.push(ruuid(next), mk(next));
+            }
+            v
+        }
+        "OauthClaimMap" => {
+            let mut vals = vec![];
+            for _ in 0..n {
+                let name = rname(next);
+                let join = match below(next, 3) {
+                    0 => OauthClaimMapJoin::CommaSeparatedValue,
+                    1 => OauthClaimMapJoin::SpaceSeparatedValue,
+                    _ => OauthClaimMapJoin::JsonArray,
+                };
+                vals.push(Value::OauthClaimMap(name.clone(), join));
+                for _ in 0..below(next, 3) {
+                    let claims: BTreeSet<String> =
+                        (0..(1 + below(next, 3))).map(|_| rname(next)).collect();
+                    vals.push(Value::OauthClaimValue(name.clone(), ruuid(next), claims));
+                }
+            }
+            from_value_iter(vals.into_iter()).ok()?
+        }
+        "IntentToken" => {
+            let mk = |next: Next<'_>| match below(next, 3) {
+                0 => IntentTokenState::Valid {
+                    max_ttl: rdur(next),
+                    perms: rperms(next),
+                },
+                1 => IntentTokenState::InProgress {
+                    max_ttl: rdur(next),
+                    perms: rperms(next),
+                    session_id: ruuid(next),
+                    session_ttl: rdur(next),
+                },
+                _ => IntentTokenState::Consumed {
+                    max_ttl: rdur(next),
+                },
+            };
+            let mut v = ValueSetIntentToken::new(rname(next), mk(next));
+            for _ in 1..n {
+                v.push(rname(next), mk(next));
+            }
+            v
+        }
+        "Passkey" => {
+            let mut v =
+                ValueSetPasskey::new(ruuid(next), rstr(next), PasskeyV4::from(rwebauthn(next)));
+            for _ in 1..n {
+                v.push(ruuid(next), rstr(next), PasskeyV4::from(rwebauthn(next)));
+            }
+            v
+        }
+        "AttestedPasskey" => {
+            let mut v = ValueSetAttestedPasskey::new(
+                ruuid(next),
+                rstr(next),
+                AttestedPasskeyV4::from(rwebauthn(next)),
+            );
+            for _ in 1..n {
+                v.push(
+                    ruuid(next),
+                    rstr(next),
+                    AttestedPasskeyV4::from(rwebauthn(next)),
+                );
+            }
+            v
+        }
+        "CredentialType" => {
+            let pick = |next: Next<'_>| match below(next, 7) {
+                0 => CredentialType::Any,
+                1 => CredentialType::External,
+                2 => CredentialType::Mfa,
+                3 => CredentialType::Passkey,
+                4 => CredentialType::AttestedPasskey,
+                5 => CredentialType::AttestedResidentkey,
+                _ => CredentialType::Invalid,
+            };
+            let mut v = ValueSetCredentialType::new(pick(next));
+            for _ in 1..n {
+                v.push(pick(next));
+            }
+            v
+        }
+        "WebauthnAttestationCaList" => {
+            let list = if below(next, 4) == 0 {
+                AttestationCaList::default()
+            } else {
+                AttestationCaList::try_from(PEM_DATA.as_bytes()).ok()?
+            };
+            ValueSetWebauthnAttestationCaList::new(list)
+        }
+        "Session" => {
+            let mk = |next: Next<'_>| Session {
+                label: rstr(next),
+                state: rstate(next),
+                issued_at: rodt(next),
+                issued_by: rident(next),
+                cred_id: ruuid(next),
+                scope: match below(next, 4) {
+                    0 => SessionScope::ReadOnly,
+                    1 => SessionScope::ReadWrite,
+                    2 => SessionScope::PrivilegeCapable,
+                    _ => SessionScope::Synchronise,
+                },
+                type_: match below(next, 9) {
+                    0 => AuthType::Anonymous,
+                    1 => AuthType::Password,
+                    2 => AuthType::GeneratedPassword,
+                    3 => AuthType::PasswordTotp,
+                    4 => AuthType::PasswordBackupCode,
+                    5 => AuthType::PasswordSecurityKey,
+                    6 => AuthType::Passkey,
+                    7 => AuthType::AttestedPasskey,
+                    _ => AuthType::OAuth2Trust,
+                },
+                ext_metadata: if below(next, 2) == 0 {
+                    SessionExtMetadata::None
+                } else {
+                    SessionExtMetadata::OAuth2 {
+                        access_expires_at: rdur(next),
+                        access_token: rstr(next),
+                        refresh_token: if below(next, 2) == 0 {
+                            None
+                        } else {
+                            Some(rstr(next))
+                        },
+                    }
+                },
+            };
+            let mut v = ValueSetSession::new(ruuid(next), mk(next));
+            for _ in 1..n {
+                v.push(ruuid(next), mk(next));
+            }
+            v
+        }
+        "Oauth2Session" => {
+            let mk = |next: Next<'_>| Oauth2Session {
+                parent: if below(next, 3) == 0 {
+                    None
+                } else {
+                    Some(ruuid(next))
+                },
+                state: rstate(next),
+                issued_at: rodt(next),
+                rs_uuid: ruuid(next),
+            };
+            let mut v = ValueSetOauth2Session::new(ruuid(next), mk(next));
+            for _ in 1..n {
+                v.push(ruuid(next), mk(next));
+            }
+            v
+        }
+        "ApiTokenSet" => {
+            let mk = |next: Next<'_>| ApiToken {
+                label: rstr(next),
+                expiry: if below(next, 2) == 0 {
+                    None
+                } else {
+                    Some(rodt(next))
+                },
+                issued_at: rodt(next),
+                issued_by: rident(next),
+                scope: match below(next, 3) {
+                    0 => ApiTokenScope::ReadOnly,
+                    1 => ApiTokenScope::ReadWrite,
+                    _ => ApiTokenScope::Synchronise,
+                },
+            };
+            let mut v = ValueSetApiTokenSet::new(ruuid(next), mk(next));
+            for _ in 1..n {
+                v.push(ruuid(next), mk(next));
+            }
+            v
+        }
+        "JwsKeyEs256" => {
+            let mut v = ValueSetJwsKeyEs256::new(JwsEs256Signer::generate_es256().ok()?);
+            for _ in 1..n {
+                v.push(JwsEs256Signer::generate_es256().ok()?);
+            }
+            v
+        }
+        "JwsKeyRs256" => {
+            let ders = rs256_der();
+            let mut v = ValueSetJwsKeyRs256::new(JwsRs256Signer::from_rs256_der(&ders[0]).ok()?);
+            if n > 1 {
+                v.push(JwsRs256Signer::from_rs256_der(&ders[1]).ok()?);
+            }
+            v
+        }
+        "UiHint" => {
+            let pick = |next: Next<'_>| match below(next, 4) {
+                0 => UiHint::ExperimentalFeatures,
+                1 => UiHint::PosixAccount,
+                2 => UiHint::CredentialUpdate,
+                _ => UiHint::SynchronisedAccount,
+            };
+            let mut v = ValueSetUiHint::new(pick(next));
+            for _ in 1..n {
+                v.push(pick(next));
+            }
+            v
+        }
+        "TotpSecret" => {
+            let mut v = ValueSetTotpSecret::new(rname(next), rtotp(next));
+            for _ in 1..n {
+                v.push(rname(next), rtotp(next));
+            }
+            v
+        }
+        "AuditLogString" => {
+            let mut v: ValueSet = ValueSetAuditLogString::new((rcid(next), rstr(next)));
+            for _ in 1..n {
+                let _ = v.insert_checked(Value::AuditLogString(rcid(next), rstr(next)));
+            }
+            v
+        }
+        "Image" => {
+            let mk = |next: Next<'_>| {
+                let (filetype, ext) = match below(next, 5) {
+                    0 => (ImageType::Png, "png"),
+                    1 => (ImageType::Jpg, "jpg"),
+                    2 => (ImageType::Gif, "gif"),
+                    3 => (ImageType::Svg, "svg"),
+                    _ => (ImageType::Webp, "webp"),
+                };
+                let k = below(next, 200) as usize;
+                ImageValue::new(format!("{}.{}", rname(next), ext), filetype, rbytes(next, k))
+            };
+            let mut v: ValueSet = ValueSetImage::new(mk(next));
+            for _ in 1..n {
+                let _ = v.insert_checked(Value::Image(mk(next)));
+            }
+            v
+        }
+        "KeyInternal" => {
+            let mk = |next: Next<'_>| {
+                let usage = match below(next, 5) {
+                    0 => KeyUsage::JwsEs256,
+                    1 => KeyUsage::JwsHs256,
+                    2 => KeyUsage::JwsRs256,
+                    3 => KeyUsage::JweA128GCM,
+                    _ => KeyUsage::HkdfS256,
+                };
+                let status = match below(next, 3) {
+                    0 => KeyStatus::Valid,
+                    1 => KeyStatus::Retained,
+                    _ => KeyStatus::Revoked,
+                };
+                let k = below(next, 64) as usize;
+                (
+                    KeyId::from(hex::encode(rbytes(next, 16))),
+                    KeyInternalData {
+                        usage,
+                        valid_from: next() >> below(next, 64),
+                        status,
+                        status_cid: rcid(next),
+                        der: Zeroizing::new(rbytes(next, k)),
+                    },
+                )
+            };
+            let keys: Vec<_> = (0..n).map(|_| mk(next)).collect();
+            ValueSetKeyInternal::from_key_iter(keys.into_iter()).ok()?
+        }
+        "HexString" => {
+            let mk = |next: Next<'_>| {
+                let k = below(next, 20) as usize;
+                hex::encode(rbytes(next, k))
+            };
+            let mut v = ValueSetHexString::new(mk(next));
+            for _ in 1..n {
+                v.push(&mk(next));
+            }
+            v
+        }
+        "Certificate" => {
+            ValueSetCertificate::new(Box::new(Certificate::from_pem(PEM_DATA).ok()?)).ok()?
+        }
+        "ApplicationPassword" => {
+            let mk = |next: Next<'_>| -> Option<ApplicationPassword> {
+                Some(ApplicationPassword {
+                    uuid: ruuid(next),
+                    application: ruuid(next),
+                    label: rname(next),
+                    password: pws
+                        .get(below(next, pws.len().max(1) as u64) as usize)?
+                        .clone(),
+                })
+            };
+            let mut v: ValueSet = from_value_iter(std::iter::once(Value::ApplicationPassword(
+                mk(next)?,
+            )))
+            .ok()?;
+            for _ in 1..n {
+                let _ = v.insert_checked(Value::ApplicationPassword(mk(next)?));
+            }
+            v
+        }
+        "Json" => {
+            fn rj(next: Next<'_>, depth: u32) -> JsonValue {
+                match below(next, if depth == 0 { 4 } else { 6 }) {
+                    0 => JsonValue::Null,
+                    1 => JsonValue::Bool(below(next, 2) == 0),
+                    2 => JsonValue::from(next() >> below(next, 64)),
+                    3 => JsonValue::String(rstr(next)),
+                    4 => JsonValue::Array(
+                        (0..below(next, 4)).map(|_| rj(next, depth - 1)).collect(),
+                    ),
+                    _ => JsonValue::Object(
+                        (0..below(next, 4))
+                            .map(|_| (rstr(next), rj(next, depth - 1)))
+                            .collect(),
+                    ),
+                }
+            }
+            ValueSetJson::new(rj(next, 3))
+        }
+        "Message" => {
+            let m = if below(next, 2) == 0 {
+                OutboundMessage::TestMessageV1 {
+                    display_name: rstr(next),
+                }
+            } else {
+                OutboundMessage::CredentialResetV1 {
+                    display_name: rstr(next),
+                    intent_id: rname(next),
+                    expiry_time: rodt(next),
+                }
+            };
+            ValueSetMessage::new(m)
+        }
+        "Sha256" => {
+            use crypto_glue::s256::Sha256Output;
+            let mut v: ValueSet = ValueSetSha256::new(Sha256Output::clone_from_slice(&rbytes(next, 32)));
+            for _ in 1..n {
+                if let Some(s) = v.as_s256_set_mut() {
+                    s.insert(Sha256Output::clone_from_slice(&rbytes(next, 32)));
+                }
+            }
+            v
+        }
+        _ => return None,
+    };
+    Some(vs)
+}
